@@ -125,6 +125,11 @@ VARIANTS = [
     V("counter recognised by another name", ("C05",), "R-COUNTER", "core.py", '        if agg.chunk[-1] == "nanlen":\n            slicer = slice(None, -1)', '        if agg.chunk[-1] == "len":\n            slicer = slice(None, -1)', must_mention="_grouped_combine"),
     V("block-local arg index returned", ("C06",), "R-GLOBALIDX", "core.py", '        results["intermediates"][1] = idx[newidx]', '        results["intermediates"][1] = newidx[-1]', must_mention="chunk_argreduce"),
     V("global index chunked along the wrong axis", ("C06",), "R-GLOBALIDX", "aggregations.py", 'chunks=array.chunks[axis], dtype=np.intp)', 'chunks=array.chunks[-1], dtype=np.intp)', must_mention="argreduce_preprocess"),
+    V("values not permuted with the labels", ("C01",), "R-PAIRS[perm]", "aggregate_flox.py", '        ordered_array = array[..., perm]', '        ordered_array = array', must_mention="_prepare_for_flox"),
+    V("values collapsed over one axis less", ("C08",), "R-PAIRS[collapse]", "core.py", '        array = _collapse_axis(array, nax)', '        array = _collapse_axis(array, nax - 1)', must_mention="chunk_reduce"),
+    V("dummy axis squeezed at -1", ("C02",), "R-PAIRS[dummy-axis]", "core.py", 'result = result.squeeze(range(result.ndim)[DUMMY_AXIS])', 'result = result.squeeze(range(result.ndim)[-1])', must_mention="dummy axis"),
+    V("output chunks listed in another order", ("C11", "C08"), "R-PAIRS[out-inds]", "core.py", 'output_chunks = new_dims_shape + reduced.chunks[: -len(axis)] + group_chunks', 'output_chunks = reduced.chunks[: -len(axis)] + new_dims_shape + group_chunks', must_mention="dask_groupby_agg"),
+    V("group sizes reversed", ("C07",), "R-PAIRS[groupers]", "core.py", '    grp_shape = tuple(len(grp) for grp in found_groups)', '    grp_shape = tuple(len(grp) for grp in found_groups)[::-1]', must_mention="factorize_"),
     # ---------------- R-LAZY (C12)
     V("labels coerced with np.asarray", ("C12",), "R-LAZY", "core.py", '    assert len(bys) == 1\n    (by_,) = bys\n\n    if axis is None:', '    assert len(bys) == 1\n    (by_,) = bys\n    by_ = np.asarray(by_)\n\n    if axis is None:', must_mention="groupby_reduce"),
     V("data-dependent branch on labels", ("C12",), "R-LAZY", "core.py", '    if axis is None:\n        axis_ = tuple(array.ndim + np.arange(-by_.ndim, 0))', '    if (by_ == -1).any():\n        pass\n    if axis is None:\n        axis_ = tuple(array.ndim + np.arange(-by_.ndim, 0))', must_mention="groupby_reduce"),
